@@ -1,5 +1,28 @@
 //! Helpers shared by the op executor, the generators and the oracles.
 
+use std::cell::{Cell, RefCell};
+
+thread_local! {
+    /// depth of intentional catch_unwind scopes (a panic inside one is a *result*)
+    pub static IN_CATCH: Cell<u32> = Cell::new(0);
+    /// replay op line of the case the oracle is working on (reported if the implementation
+    /// panics outside an intentional catch scope)
+    pub static CURRENT: RefCell<String> = RefCell::new(String::new());
+}
+
+/// catch_unwind that tells the panic hook the panic is expected
+pub fn quiet_catch<R>(f: impl FnOnce() -> R + std::panic::UnwindSafe) -> std::thread::Result<R> {
+    IN_CATCH.with(|c| c.set(c.get() + 1));
+    let r = std::panic::catch_unwind(f);
+    IN_CATCH.with(|c| c.set(c.get() - 1));
+    r
+}
+
+/// remember what the oracle is looking at
+pub fn at(replay: String) {
+    CURRENT.with(|c| *c.borrow_mut() = replay);
+}
+
 pub fn hex(b: &[u8]) -> String {
     let mut s = String::with_capacity(1 + 2 * b.len());
     s.push('x');
